@@ -136,6 +136,7 @@ func runC12(c *engine.Ctx, tier string) {
 	c12NaN(c, d)
 	c12WaitGroups(c, d)
 	c12ErrPathDeref(c, d)
+	c12NotOkUse(c, d)
 	c12Narrowing(c, d)
 	c12GoBeforeCheck(c)
 	c12StreamTypestate(c)
@@ -189,6 +190,48 @@ func c12ErrPathDeref(c *engine.Ctx, d *c12Data) {
 				reported[key] = true
 				o.Fail(&engine.Violation{Key: key, Pos: c.P.Pos(e.Pos), Func: p.Root.Name(),
 					Msg:   types.ExprString(e.SiteExpr) + " is the value returned by " + c.Render(call) + " and is dereferenced on a path where that call's error is non-nil: the value is nil there",
+					Found: engine.LitsString(engine.CondsBefore(p, i))})
+			}
+		}
+	}
+}
+
+// c12NotOkUse: C12.14 (seed C12-r41). The value of a comma-ok lookup (`conn, ok := conns.Get(id)`) is not
+// used as the receiver of a method call on a path that assumed ok false: it is the zero value there — for the
+// interface values the lookups of this code base return, a nil interface, and the call panics (in the seed: in
+// a goroutine of the handler, where no recovery interceptor can catch it).
+func c12NotOkUse(c *engine.Ctx, d *c12Data) {
+	o := c.Custom("C12.14", "nil(value of a failed lookup)", "in the functions reachable from the RPC handlers and the controllers (goroutine literals included), no method is called on the value of a comma-ok call on a path that assumed its ok result false",
+		"a lookup that misses returns the zero value: calling through it crashes the process")
+	defer o.Done(5)
+	reported := map[string]bool{}
+	sites := map[string]bool{}
+	for _, p := range d.paths {
+		for i := range p.Events {
+			e := &p.Events[i]
+			if e.Kind != engine.EvCall || e.Recv == "" {
+				continue
+			}
+			x := stripVer(strings.TrimSuffix(strings.TrimPrefix(e.Recv, "{"), "}"))
+			if !strings.HasPrefix(x, "§") && !strings.Contains(x, "(") {
+				continue
+			}
+			if k := c.P.Pos(e.Pos) + "|" + x; !sites[k] {
+				sites[k] = true
+				o.Site("")
+			}
+			o.Eval(1)
+			for _, l := range engine.CondsBefore(p, i) {
+				if l.L != "ok("+x+")" || l.R != "true" || l.Mask != 5 {
+					continue
+				}
+				key := p.Root.Name() + "|method called on the value of a lookup that missed: " + e.CalleeName
+				if reported[key] {
+					continue
+				}
+				reported[key] = true
+				o.Fail(&engine.Violation{Key: key, Pos: c.P.Pos(e.Pos), Func: p.Root.Name(),
+					Msg:   e.CalleeName + " is called on " + c.Render(x) + " on a path on which the lookup that produced it reported ok == false: the value is the zero value (a nil interface) there",
 					Found: engine.LitsString(engine.CondsBefore(p, i))})
 			}
 		}
